@@ -189,6 +189,8 @@ class AWSElastiCacheHashClient(HashClient):
                 "Seems like it is ElastiCache Serverless or even isn't ElastiCache at all.",
                 client.server,
             )
+            # there is no node list to return
+            raise
         finally:
             client.close()
 
